@@ -679,6 +679,9 @@ class Blockwise(Layer):
         for arg, _ in self.indices:
             if isinstance(arg, TaskRef):
                 const_deps.add(arg.key)
+            elif isinstance(arg, GraphNode):
+                # e.g. ``Alias(key)`` as documented in ``blockwise``
+                const_deps.update(arg.dependencies)
 
         # Get dependencies for each output block
         key_deps = {}
